@@ -35,6 +35,10 @@ package memory
 //@   ensures[prefix] len(m.stack) >= old(len(m.stack)) && sameBelow(m, old(len(m.stack)))
 //@   ensures[rest]   m.sp == old(m.sp) && same(m.fp, old(m.fp)) && restSame(m) && wf(m)
 //@   ensures[arr]    arr(m.stack) == old(arr(m.stack)) || fresh(m.stack)
+// Frames handed out by Top (the closure frames the VM stores in function values) are slices of the
+// stack's backing array: they keep denoting the live variables only while that array is the stack.
+// This does NOT hold: append moves the stack when it grows - an open, listed finding (C03, C18).
+//@   ensures[frames_stay_valid;C03,C18] len(m.fp) >= 2 ==> arr(m.stack) == old(arr(m.stack))
 //
 //@ func (*Type).Push [C18,C09]
 //@   requires wf(m)
